@@ -76,68 +76,68 @@ example :
 theorem code_matches_model :
     Gen.Upstream.makeRequest =
       ["addr, err := u.chooseHost(routingKey, req)",
-       "if err != nil { req.SetResponse(newError(err.Error())) return }",
-       "u.MakeRequestToHost(addr, req)"] ∧
+      "if err != nil { req.SetResponse(newError(err.Error())) return }",
+      "u.MakeRequestToHost(addr, req)"] ∧
     Gen.Upstream.chooseHost =
       ["hash := crc16(hashtag(routingKey))",
-       "inst := u.slots[hash&(slotNum-1)]",
-       "if inst == nil { return u.randomHost() }",
-       "if !req.IsReadOnly() { return inst.Addr, nil }",
-       "// read-only requests var candidates []string",
-       "readStrategy := redis.ReadStrategy_MASTER",
-       "if option := u.cfg.GetRedisOption(); option != nil { readStrategy = option.ReadStrategy }",
-       "switch readStrategy { case redis.ReadStrategy_MASTER: candidates = append(candidates, inst.Addr) case redis.ReadStrategy_BOTH: candidates = append(candidates, inst.Addr) fallthrough case redis.ReadStrategy_REPLICA: for _, replica := range inst.Replicas { candidates = append(candidates, replica.Addr) } }",
-       "if len(candidates) == 0 { candidates = append(candidates, inst.Addr) }",
-       "i := 0",
-       "l := len(candidates)",
-       "if l > 1 { i = int(time.Now().UnixNano()) % l }",
-       "return candidates[i], nil"] ∧
+      "inst := u.slots[hash&(slotNum-1)]",
+      "if inst == nil { return u.randomHost() }",
+      "if !req.IsReadOnly() { return inst.Addr, nil }",
+      "// read-only requests var candidates []string",
+      "readStrategy := redis.ReadStrategy_MASTER",
+      "if option := u.cfg.GetRedisOption(); option != nil { readStrategy = option.ReadStrategy }",
+      "switch readStrategy { case redis.ReadStrategy_MASTER: candidates = append(candidates, inst.Addr) case redis.ReadStrategy_BOTH: candidates = append(candidates, inst.Addr) fallthrough case redis.ReadStrategy_REPLICA: for _, replica := range inst.Replicas { candidates = append(candidates, replica.Addr) } }",
+      "if len(candidates) == 0 { candidates = append(candidates, inst.Addr) }",
+      "i := 0",
+      "l := len(candidates)",
+      "if l > 1 { i = int(time.Now().UnixNano()) % l }",
+      "return candidates[i], nil"] ∧
     Gen.Upstream.handleSimpleCommand =
       ["body := req.Body()",
-       "if len(body.Array) < 2 { req.SetResponse(newError(invalidRequest)) return }",
-       "simpleReq := newSimpleRequest(body)",
-       "simpleReq.RegisterHook(func(simpleReq *simpleRequest) { req.SetResponse(simpleReq.Response()) })",
-       "key := body.Array[1].Text",
-       "u.MakeRequest(key, simpleReq)"] ∧
+      "if len(body.Array) < 2 { req.SetResponse(newError(invalidRequest)) return }",
+      "simpleReq := newSimpleRequest(body)",
+      "simpleReq.RegisterHook(func(simpleReq *simpleRequest) { req.SetResponse(simpleReq.Response()) })",
+      "key := body.Array[1].Text",
+      "u.MakeRequest(key, simpleReq)"] ∧
     Gen.Upstream.handleSumResultCommand =
       ["sumResultReq, err := newSumResultRequest(req)",
-       "if err != nil { req.SetResponse(newError(err.Error())) return }",
-       "simpleReqs := sumResultReq.Split()",
-       "for i := 0; i < len(simpleReqs); i++ { simpleReq := simpleReqs[i] key := simpleReq.Body().Array[1].Text u.MakeRequest(key, simpleReq) }"] ∧
+      "if err != nil { req.SetResponse(newError(err.Error())) return }",
+      "simpleReqs := sumResultReq.Split()",
+      "for i := 0; i < len(simpleReqs); i++ { simpleReq := simpleReqs[i] key := simpleReq.Body().Array[1].Text u.MakeRequest(key, simpleReq) }"] ∧
     Gen.Upstream.handleMGet =
       ["mgetReq, err := newMGetRequest(req)",
-       "if err != nil { req.SetResponse(newError(err.Error())) return }",
-       "simpleReqs := mgetReq.Split()",
-       "for i := 0; i < len(simpleReqs); i++ { simpleReq := simpleReqs[i] key := simpleReq.Body().Array[1].Text u.MakeRequest(key, simpleReq) }"] ∧
+      "if err != nil { req.SetResponse(newError(err.Error())) return }",
+      "simpleReqs := mgetReq.Split()",
+      "for i := 0; i < len(simpleReqs); i++ { simpleReq := simpleReqs[i] key := simpleReq.Body().Array[1].Text u.MakeRequest(key, simpleReq) }"] ∧
     Gen.Upstream.handleMSet =
       ["msetReq, err := newMSetRequest(req)",
-       "if err != nil { req.SetResponse(newError(err.Error())) return }",
-       "simpleReqs := msetReq.Split()",
-       "for i := 0; i < len(simpleReqs); i++ { simpleReq := simpleReqs[i] key := simpleReq.Body().Array[1].Text u.MakeRequest(key, simpleReq) }"] ∧
+      "if err != nil { req.SetResponse(newError(err.Error())) return }",
+      "simpleReqs := msetReq.Split()",
+      "for i := 0; i < len(simpleReqs); i++ { simpleReq := simpleReqs[i] key := simpleReq.Body().Array[1].Text u.MakeRequest(key, simpleReq) }"] ∧
     Gen.Upstream.mgetSplit =
       ["if r.children != nil { return r.children }",
-       "v := r.raw.Body().Array",
-       "sreqs := make([]*simpleRequest, 0, len(v)-1)",
-       "for i := 1; i < len(v); i++ { sv := &RespValue{ Type: Array, Array: []RespValue{ {Type: BulkString, Text: []byte(\"get\")}, v[i], }, } sreq := newSimpleRequest(sv) sreq.RegisterHook(r.onChildDone) sreqs = append(sreqs, sreq) }",
-       "r.children = sreqs",
-       "r.childWait.Store(int32(len(sreqs)))",
-       "return sreqs"] ∧
+      "v := r.raw.Body().Array",
+      "sreqs := make([]*simpleRequest, 0, len(v)-1)",
+      "for i := 1; i < len(v); i++ { sv := &RespValue{ Type: Array, Array: []RespValue{ {Type: BulkString, Text: []byte(\"get\")}, v[i], }, } sreq := newSimpleRequest(sv) sreq.RegisterHook(r.onChildDone) sreqs = append(sreqs, sreq) }",
+      "r.children = sreqs",
+      "r.childWait.Store(int32(len(sreqs)))",
+      "return sreqs"] ∧
     Gen.Upstream.msetSplit =
       ["if r.children != nil { return r.children }",
-       "v := r.raw.Body().Array",
-       "sreqs := make([]*simpleRequest, 0, len(v)/2)",
-       "for i := 0; i < len(v)/2; i++ { sv := &RespValue{ Type: Array, Array: []RespValue{ {Type: BulkString, Text: []byte(\"set\")}, v[2*i+1], v[2*(i+1)], }, } sreq := newSimpleRequest(sv) sreq.RegisterHook(r.onChildDone) sreqs = append(sreqs, sreq) }",
-       "r.children = sreqs",
-       "r.childWait.Store(int32(len(sreqs)))",
-       "return sreqs"] ∧
+      "v := r.raw.Body().Array",
+      "sreqs := make([]*simpleRequest, 0, len(v)/2)",
+      "for i := 0; i < len(v)/2; i++ { sv := &RespValue{ Type: Array, Array: []RespValue{ {Type: BulkString, Text: []byte(\"set\")}, v[2*i+1], v[2*(i+1)], }, } sreq := newSimpleRequest(sv) sreq.RegisterHook(r.onChildDone) sreqs = append(sreqs, sreq) }",
+      "r.children = sreqs",
+      "r.childWait.Store(int32(len(sreqs)))",
+      "return sreqs"] ∧
     Gen.Upstream.sumSplit =
       ["if r.children != nil { return r.children }",
-       "v := r.raw.Body().Array",
-       "sreqs := make([]*simpleRequest, 0, len(v)-1)",
-       "for i := 1; i < len(v); i++ { sv := &RespValue{ Type: Array, Array: []RespValue{ v[0], v[i], }, } sreq := newSimpleRequest(sv) sreq.RegisterHook(r.onChildDone) sreqs = append(sreqs, sreq) }",
-       "r.children = sreqs",
-       "r.childWait.Store(int32(len(sreqs)))",
-       "return sreqs"] := by
+      "v := r.raw.Body().Array",
+      "sreqs := make([]*simpleRequest, 0, len(v)-1)",
+      "for i := 1; i < len(v); i++ { sv := &RespValue{ Type: Array, Array: []RespValue{ v[0], v[i], }, } sreq := newSimpleRequest(sv) sreq.RegisterHook(r.onChildDone) sreqs = append(sreqs, sreq) }",
+      "r.children = sreqs",
+      "r.childWait.Store(int32(len(sreqs)))",
+      "return sreqs"] := by
   refine ⟨rfl, rfl, rfl, rfl, rfl, rfl, rfl, rfl, rfl⟩
 
 end SamVerif.Props.C03
